@@ -329,7 +329,7 @@ func (w *World) classifyGlobals(p *ssa.Package) {
 			if c, ok := v.(*ssa.Call); ok {
 				if f := c.Call.StaticCallee(); f != nil {
 					n := f.String()
-					if n == "errors.New" || n == "fmt.Errorf" {
+					if n == "errors.New" || n == "fmt.Errorf" || strings.HasSuffix(n, "/errors.New") || strings.HasSuffix(n, "/errors.Errorf") {
 						kind = "err"
 					}
 				}
